@@ -30,6 +30,9 @@ pub struct SgenCfg {
     pub root_record: bool,
     /// emit the `order` field attribute (with decorations)
     pub field_order: bool,
+    /// at most one record, one enum and one fixed branch per union (resolution profile: the library
+    /// selects named branches by trial resolution, not by name)
+    pub single_named_per_union: bool,
 }
 
 impl SgenCfg {
@@ -51,6 +54,7 @@ impl SgenCfg {
             max_fields: 6,
             root_record: false,
             field_order: true,
+            single_named_per_union: false,
         }
     }
     pub fn decorated() -> Self {
@@ -435,6 +439,7 @@ impl<'c, 'd> Gen<'c, 'd> {
         let k = 1 + self.c.weighted(&[2, 6, 4, 2, 1]);
         let mut branches: Vec<SNode> = vec![];
         let mut used: Vec<&'static str> = vec![];
+        let mut used_named: Vec<&'static str> = vec![];
         let mut tries = 0;
         while branches.len() < k && tries < 3 * k {
             tries += 1;
@@ -455,6 +460,25 @@ impl<'c, 'd> Gen<'c, 'd> {
                 cand
             };
             let bk = b.kind();
+            // kind of a named branch (following references)
+            let named_kind: Option<&'static str> = match &b.ty {
+                SType::Record(..) => Some("record"),
+                SType::Enum(..) => Some("enum"),
+                SType::Fixed(..) => Some("fixed"),
+                SType::Ref(full) => self.closed.iter().find(|(n, _)| n == full).map(|(_, k)| *k).or(Some("record")),
+                _ => None,
+            };
+            if self.cfg.single_named_per_union {
+                // a map value is also matched against record branches (JSON objects): keep them apart
+                let nk2 = if bk == "map" { Some("record") } else { named_kind };
+                if let Some(nk) = nk2 {
+                    if used_named.contains(&nk) {
+                        self.unregister(&b);
+                        continue;
+                    }
+                    used_named.push(nk);
+                }
+            }
             let dup = match &b.ty {
                 SType::Ref(full) => branches.iter().any(|x| {
                     x.ty == b.ty || x.named().map(|n| n.fullname()).as_deref() == Some(full.as_str())
